@@ -188,14 +188,18 @@ type LockAnalysis struct {
 	report   bool
 	changed  bool
 
-	Acqs     []acqSite
-	isEntry  func(*FuncNode) bool
-	Dead     map[string]bool // internal functions that need a lock but have no caller: unreachable
-	Edges    []orderEdge
-	Pairs    []pairFinding
-	Accesses []accessSite
-	LockOps  int
-	Unknown  []string
+	Acqs []acqSite
+	// CallStates is the must-lockset immediately before each call (intersection over
+	// the contexts a literal is analysed in).
+	CallStates map[*ast.CallExpr]map[string]held
+	NodeStates map[ast.Node]map[string]held
+	isEntry    func(*FuncNode) bool
+	Dead       map[string]bool // internal functions that need a lock but have no caller: unreachable
+	Edges      []orderEdge
+	Pairs      []pairFinding
+	Accesses   []accessSite
+	LockOps    int
+	Unknown    []string
 	// ExemptFresh: accesses through a local variable that was allocated in the same
 	// function (constructor before publication) are exempt.
 	funcsAnalysed int
@@ -949,6 +953,12 @@ func returnsReleaser(fn *FuncNode, ret *ast.ReturnStmt, h held) bool {
 
 // node applies the transfer function of one graph node.
 func (bc *bodyCtx) node(n ast.Node, st *lockState) {
+	if bc.la.report {
+		if bc.la.NodeStates == nil {
+			bc.la.NodeStates = map[ast.Node]map[string]held{}
+		}
+		bc.la.NodeStates[n] = bc.la.recordState(bc.la.NodeStates[n], st)
+	}
 	switch x := n.(type) {
 	case *ast.DeferStmt:
 		bc.deferStmt(x, st)
@@ -1302,8 +1312,51 @@ func isFreshAlloc(e ast.Expr) bool {
 	return false
 }
 
+func (la *LockAnalysis) recordState(m map[string]held, st *lockState) map[string]held {
+	if m == nil {
+		m = map[string]held{}
+		for k, v := range st.must {
+			m[k] = v
+		}
+		return m
+	}
+	for k := range m {
+		if _, ok := st.must[k]; !ok {
+			delete(m, k)
+		}
+	}
+	return m
+}
+
+// HeldAt reports whether class is certainly held in at least the given mode just before
+// the call.
+func (la *LockAnalysis) HeldAt(call *ast.CallExpr, class string, mode Mode) bool {
+	for _, h := range la.CallStates[call] {
+		if h.Class == class && h.Mode >= mode {
+			return true
+		}
+	}
+	return false
+}
+
+// HeldAtNode is HeldAt for a statement node of the graph.
+func (la *LockAnalysis) HeldAtNode(n ast.Node, class string, mode Mode) bool {
+	for _, h := range la.NodeStates[n] {
+		if h.Class == class && h.Mode >= mode {
+			return true
+		}
+	}
+	return false
+}
+
 func (bc *bodyCtx) call(call *ast.CallExpr, st *lockState) {
 	la := bc.la
+	if la.report {
+		if la.CallStates == nil {
+			la.CallStates = map[*ast.CallExpr]map[string]held{}
+		}
+		la.CallStates[call] = la.recordState(la.CallStates[call], st)
+	}
 	fun := ast.Unparen(call.Fun)
 	// lock operations
 	if op, h, ok := la.lockOp(bc.fn, call); ok {
